@@ -336,14 +336,28 @@ def observe(st, text):
     return ('text', text)
 
 
-def close(o, e):
+def close(o, e, slack=0.0):
     if math.isnan(e):
         return math.isnan(o)
     if math.isinf(e):
         return o == e
     if not finite(o):
         return False
-    return abs(o - e) <= 1e-10 * abs(e) + 2e-13
+    return abs(o - e) <= 1e-10 * abs(e) + 2e-13 + slack
+
+
+def slack_of(case, exp):
+    """trigonometric functions: the angle in radians carries a relative error of a few ulp from the unit conversion,
+    which the function amplifies by |x| (sin, cos) or |x|(1+tan^2) (tan)"""
+    if case['fn'] not in TRIG or exp[0] != 'num':
+        return 0.0
+    a = case['args'][0]
+    x = val(a['t'])
+    if not finite(x):
+        return 0.0
+    x = abs(x if a['u'] in ('', 'rad') else conv(x, a['u'], 'rad'))
+    v = exp[1][0][0]
+    return 1e-15 * x * ((1 + v * v) if case['fn'] == 'tan' and finite(v) else 1.0)
 
 
 def vclass(x):
@@ -406,7 +420,7 @@ def judge(ctx, case, st, text):
             if ok:
                 ctx.stat('admitted_error_where_statement_is_silent')
         elif obs[0] == 'num':
-            ok = any(obs[2] == u and close(obs[1], v * scale) for v, u in exp[1])
+            ok = any(obs[2] == u and close(obs[1], v * scale, slack_of(case, exp) * scale) for v, u in exp[1])
     if not ok:
         # the signature names oracle-side classes only; where an error is expected the magnitudes do not matter, and
         # where a number is expected from several operands the three compatible unit classes are one class
